@@ -24,6 +24,8 @@ def example(draw, tier):
     flavor = draw(st.sampled_from(FLAVORS))
     prog, nops = gen.list_program(draw, tier)
     head = ["scen list_" + flavor, "cfg membarrier %d" % draw(st.integers(0, 1))]
+    if draw(st.integers(0, 3)) == 0:
+        head.append("cfg addrline %d" % draw(st.integers(1, 14)))   # one allocation of the case sits exactly on a 4 GiB address line
     out = []
     for _ in range(gen.BATCH):
         sched = gen.schedule_lines(draw, tier, len(nops), nops, ndaemons=1)
